@@ -2,6 +2,7 @@
 From Coq Require Import ZArith Bool List Lia.
 From MomoCommon Require Import GenPrelude.
 From C18 Require Import Gen_Vertices Gen_Ceil Model Layout Fill Vertices Bits Inv.
+From C18 Require Gen_List.
 Import ListNotations.
 Local Open Scope Z_scope.
 
@@ -145,7 +146,32 @@ Section WithL.
     - intros r Hr. apply (is_mutable_column L keep); auto.
     - intros o Ho H. apply (is_mutable_only_columns L keep); auto.
   Qed.
+  (* ---- generated code: the cxx2coq translation of the real pvGetOffset, on the members of any reachable state ---- *)
+  Theorem reachable_generated_pvGetOffset ops : Forall (fun op => group_ok (snd op)) ops ->
+    forall r, In r (columns (reach_f ops)) ->
+      Gen_List.pvGetOffset (GetVertices L) (codeParam (reach_f ops)) (addends (reach_f ops))
+                           (totalSize (reach_f ops)) (alignment (reach_f ops)) (r_code r) = Ok (r_off r).
+  Proof.
+    intros Hops r Hr. pose proof (inv_lookup L keep _ (run_f_inv L keep HL ops Hops) r Hr) as H.
+    unfold get_offset in H. rewrite <- (lookup_refines L) in H. unfold lookup_gen in H.
+    change (Gen_List.pvGetOffset (GetVertices L) (codeParam (reach_f ops)) (addends (reach_f ops)) 0 0 (r_code r))
+      with (Gen_List.pvGetOffset (GetVertices L) (codeParam (reach_f ops)) (addends (reach_f ops))
+              (totalSize (reach_f ops)) (alignment (reach_f ops)) (r_code r)) in H.
+    destruct (Gen_List.pvGetOffset _ _ _ _ _ _); try discriminate. injection H as ->. reflexivity.
+  Qed.
+
+  (* in every reachable state mCodeParam is at most the source's maxCodeParam, so every vertex index computed from it --
+     for ANY column code, added or not -- is inside mAddends / mEdges *)
+  Theorem reachable_indices_in_bounds ops code : Forall (fun op => group_ok (snd op)) ops ->
+    let cp := codeParam (reach_f ops) in
+    0 <= cp <= maxCodeParam /\
+    0 <= fst (GetVertices L code cp) < vertexCount L /\ 0 <= snd (GetVertices L code cp) < vertexCount L.
+  Proof.
+    intros Hops cp. pose proof (inv_cp L keep _ (run_f_inv L keep HL ops Hops)) as Hcp. fold cp in Hcp.
+    split; [exact Hcp|]. destruct (vertex_indices_in_bounds L HL code cp Hcp) as (H1 & H2 & _). auto.
+  Qed.
 End WithL.
+
 
 
 (* ---------- non-vacuity: concrete histories evaluated by the kernel ---------- *)
